@@ -318,7 +318,14 @@ func TestCheck(t *testing.T) {
 	// Every case runs in a child process: the code under test can crash the process (and does: see the
 	// crash-in-canopy signature), which must cost one observation, not the run.
 	var children []childSpec
-	plain := filter(run, parentCases())
+	var plain, heavyCases []string
+	for _, n := range filter(run, parentCases()) {
+		if weight(n) >= 5 {
+			heavyCases = append(heavyCases, n) // 256 MB through one stream: run before everything else, one at a time
+		} else {
+			plain = append(plain, n)
+		}
+	}
 	shards := core.Pick(3, 6)
 	for s := 0; s < shards; s++ {
 		ch := childSpec{Shard: s, Budget: core.Pick(4, 4)}
@@ -362,6 +369,11 @@ func TestCheck(t *testing.T) {
 	for i := range children {
 		children[i].Chunk = measured
 	}
+	if len(heavyCases) > 0 {
+		// the victim of an over-limit script has to take in 256 MB without ever pausing for 3 s (its own
+		// heartbeat deadline); nothing else of this check runs meanwhile
+		runChild(t, os.Args[0], tmp, childSpec{Shard: 98, Budget: 1, Chunk: measured, Cases: heavyCases}, res, reports, &rmu)
+	}
 	slots := make(chan struct{}, core.Pick(5, 5)) // child processes at a time
 	for _, ch := range children {
 		cwg.Add(1)
@@ -380,10 +392,16 @@ func TestCheck(t *testing.T) {
 	apply(run, res)
 	run.Extra("measured_packet_payload_bytes", res.Counts["packet_payload_bytes_last_probe"])
 	run.Extra("message_size_limit_bytes", maxMsg)
-	if run.Want("hostile/overlimit/0") && res.Counts["hostile_rejected_by_size_cap"] == 0 {
-		// the size-cap sub-monitor saw nothing (the machine was too slow to push 256 MB within the code's
-		// heartbeat deadline): say so rather than pass silently
-		run.Inconclusive("the message-size cap was never reached in this run (over-limit scripts ended by the victim's heartbeat timeout)")
+	capReached := res.Counts["hostile_rejected_by_message_size_cap"] > 0
+	run.Extra("message_size_cap_reached", capReached)
+	if run.Want("hostile/overlimit/0") && !capReached {
+		// the sub-monitor for handlePacket's cap saw nothing: the victim could not take in 256 MB without pausing
+		// for 3 s (its own heartbeat deadline). The wire-frame cap scripts still ran. The thorough tier refuses to
+		// pass without it; the quick tier says so and goes on.
+		fmt.Println("NOTE property=C18 the 256 MB message-size cap was not reached (over-limit scripts were ended by the victim's heartbeat timeout); see message_size_cap_reached in the evidence")
+		if core.Thorough() {
+			run.Inconclusive("the message-size cap was never reached in this run (over-limit scripts ended by the victim's heartbeat timeout)")
+		}
 	}
 	if raceWanted && raceBin != "" {
 		keys := make([]string, 0, len(reports))
@@ -431,6 +449,9 @@ func runChild(t *testing.T, bin, tmp string, ch childSpec, res *results, reports
 		_ = os.WriteFile(jobPath, jb, 0o644)
 		cmd := exec.Command(bin, "-test.run", "^TestChild$", "-test.count=1", "-test.timeout", "3h")
 		cmd.Env = append(os.Environ(), "VERIF_C18_CHILD="+jobPath)
+		if os.Getenv("GOGC") == "" {
+			cmd.Env = append(cmd.Env, "GOGC=400") // fewer collector pauses inside the code's 3 s deadlines; memory is not the constraint
+		}
 		if ch.Race {
 			cmd.Env = append(cmd.Env, "GOMAXPROCS="+strconv.Itoa(ch.Procs),
 				"GORACE=halt_on_error=0 history_size=3 log_path="+filepath.Join(dir, "race"))
